@@ -292,6 +292,22 @@ pub fn attribute(active: &[Finding], m: &ModelRun, obs: &proto::SnippetResult) -
     Some(id.to_string())
 }
 
+pub fn cases_for_c04(thorough: bool) -> Vec<Case> {
+    let mut v: Vec<Case> = Vec::new();
+    for n in nests_of_depth(1) {
+        v.push(Case::new("nest_depth1", program(&[n])));
+    }
+    for n in nests_of_depth(2) {
+        v.push(Case::new("nest_depth2", program(&[n])));
+    }
+    if thorough {
+        for n in nests_of_depth(3) {
+            v.push(Case::new("nest_depth3", program(&[n])));
+        }
+    }
+    v
+}
+
 pub fn run(ctx: &Ctx) -> Report {
     let mut report = Report::new();
     let active = active_findings(ctx, &mut report);
